@@ -13,6 +13,14 @@ ops:    arrive <c> [timeout=<ms>] inner=<lat>:<out> | poll <c> | drop <c> | adv 
         rec=<ms> recall=0 (per-instance recovery: never met through the time limiter).  At `arrive` the adapter calls poll_ready the way
         a Tower caller does: Pending -> `result c notready`, error -> `result c err:inner9:0`, and no call is made (the generator
         retries later under a fresh caller id); with these options inner_call lines read `inner_call c k tag=<c> ready=<0|1>`
+entry points and handles (all optional, see harness/src/mw_timelimiter.rs): header `via=<builder|new|default>` (where the builder comes
+        from), chain items `n<text>` (.name) and `ls`/`le`/`lt` (.on_success/.on_error/.on_timeout); `arrive … svc=<k>` (one of several
+        services built lazily from the ONE layer value; `lc=1`: from a clone of the layer), `h=<j>` (the call is made on the kept handle j
+        of that service, created — `from=<i>`: as a clone of handle i — when first used and then re-used), `manual forget svc=<k> [h=<j>]` /
+        `manual forget layer=1` (a handle / a service with all its handles / the layer value is dropped; `manual dropsvc` drops everything),
+        `probe source [timeout=<t>] path=<[cb]*>` (the configured timeout source constructed stand-alone, cloned ('c') / clone_box'ed ('b')
+        along the path, asked for the timeout of a request: `probe source <ms|max>`).  A result text may carry `!accessors:…` (is_timeout /
+        into_inner / ResilienceError::from contradict the variant) or `!listeners:…` (the counting listeners did not fire once per result).
 log:    `inner_orphaned <c> <k>`: the last instance of the (scripted) inner service was dropped while call k was unfinished — the inner
         service of the harness ties in-flight work to live handles, like a client handle of a shared connection
 
@@ -305,7 +313,62 @@ def gen(rng, tier):
         if rng.random() < 0.3:
             ops.append("dropall")
             ops.append("adv %d" % rng.choice([1, 50, 100]))
-    return {"header": header, "ops": ops}
+    return _decorate(rng, header, ops)
+
+
+NAMES = ["api", "db", "x", "limiter-1", "a.b", "T"]
+
+
+def _decorate(rng, header, ops):
+    """entry points and handles: none of them changes what a call does (the base case above is what it was), so they are laid over
+    the finished case: where the builder comes from, names and listeners in the chain, the service and the handle every call goes
+    through, handles / services / the layer dropped at any point, probes of the stand-alone timeout source"""
+    if rng.random() < 0.30:
+        header += " via=%s" % rng.choice(["new", "default"])
+    w = header.split()
+    if rng.random() < 0.45:
+        ix = [i for i, x in enumerate(w) if x.startswith("chain=")]
+        if ix:
+            items = [x for x in w[ix[0]][6:].split(",") if x != "-"]
+            for _ in range(rng.randint(1, 3)):
+                it = rng.choice(["n" + rng.choice(NAMES), "ls", "le", "lt", "lt"])
+                items.insert(rng.randint(0, len(items)), it)
+            w[ix[0]] = "chain=" + ",".join(items)
+            header = " ".join(w)
+    out = list(ops)
+    if rng.random() < 0.45:
+        # several services from the one layer, kept handles (re-used while calls are in flight, cloned after calls)
+        nsvc = rng.choice([1, 2, 2, 3])
+        nh = rng.choice([1, 1, 2, 3])
+        keep = rng.choice([0.3, 0.6, 1.0])
+        if "e" in kvs(header).get("ready", "") and rng.random() < 0.6:
+            # a readiness error met on the one handle everybody uses, while earlier calls made on it are in flight
+            nsvc, nh, keep = 1, 1, 1.0
+        for i, o in enumerate(out):
+            if o.startswith("arrive "):
+                extra = []
+                if nsvc > 1 or rng.random() < 0.5:
+                    extra.append("svc=%d" % rng.randrange(nsvc))
+                if rng.random() < keep:
+                    extra.append("h=%d" % rng.randrange(nh))
+                    if rng.random() < 0.3:
+                        extra.append("from=%d" % rng.randrange(nh))
+                if rng.random() < 0.25:
+                    extra.append("lc=1")
+                out[i] = o + "".join(" " + e for e in extra)
+        for _ in range(rng.choice([0, 0, 1, 1, 2, 3])):
+            q = rng.random()
+            f = ("manual forget svc=%d h=%d" % (rng.randrange(nsvc), rng.randrange(nh)) if q < 0.45
+                 else "manual forget svc=%d" % rng.randrange(nsvc) if q < 0.85 else "manual forget layer=1")
+            out.insert(rng.randint(0, len(out)), f)
+    if rng.random() < 0.25:
+        for _ in range(rng.randint(1, 3)):
+            pr = "probe source"
+            if rng.random() < 0.6:
+                pr += " timeout=%s" % tmo_text(rng.choice([0, 1, 7, 33, rng.choice(HUGE), INF]))
+            pr += " path=%s" % "".join(rng.choice("cb") for _ in range(rng.randint(0, 4)))
+            out.insert(rng.randint(0, len(out)), pr)
+    return {"header": header, "ops": out}
 
 
 # ----------------------------------------------------------------------------- reading a case
@@ -398,6 +461,9 @@ class View:
         self.refused = {}     # caller -> (instant, text, position): poll_ready was not Ready(Ok) at `arrive`, no call was made
         self.wakes_before_result = {}
         self.errors = []
+        self.marked = []      # (caller, instant, text as logged) of results whose text carries `!accessors:` / `!listeners:`
+        self.forgets = []     # (position, instant, what)
+        self.probes = []      # (instant, words after `probe`)
         lastwake = {}
         for i, (kind, w, t) in enumerate(self.ev):
             if not w:
@@ -411,8 +477,17 @@ class View:
                     self.dropped[w[1]] = (int(w[2]), i)
                 elif w[0] == "#dropsvc" and len(w) > 1:
                     self.dropsvc = int(w[1])
+                elif w[0] == "#forget" and len(w) > 2:
+                    self.forgets.append((i, int(w[1]), " ".join(w[2:])))
                 continue
             c = w[1] if len(w) > 1 else None
+            if w[0] == "probe":
+                self.probes.append((t, w[1:]))
+                continue
+            if w[0] == "result" and len(w) > 2 and "!" in w[2]:
+                # cross-checks of the adapter (error accessors, listeners): monitors of their own; the result is what the variant says
+                self.marked.append((c, t, w[2]))
+                w = w[:2] + [w[2].split("!")[0]] + w[3:]
             if w[0] == "inner_call":
                 if c in self.call:
                     self.errors.append("caller %s: a second inner_call (%s)" % (c, " ".join(w)))
@@ -680,6 +755,57 @@ def mon_background(case, lines, meta):
     return None
 
 
+def mon_accessors(case, lines, meta):
+    """what a caller is told is what the accessors of the error say: `is_timeout()` is true exactly for the timeout error, `into_inner()`
+    gives exactly the inner call's error (none for the timeout error), the conversion into `ResilienceError` gives Timeout / Application"""
+    v = View(case, lines, meta)
+    for c, t, text in v.marked:
+        for part in text.split("!")[1:]:
+            if part.startswith("accessors:"):
+                base = text.split("!")[0]
+                want = ("is_timeout=true,into_inner=none,as_resilience=timeout(time_limiter)" if base == "err:timeout"
+                        else "is_timeout=false,into_inner=%s,as_resilience=application:%s" % (base[4:], base[4:]))
+                return ("caller %s was answered %s at t=%d, but the accessors of that error say %s (they must say %s): a caller that asks "
+                        "`is_timeout()` / `into_inner()` is told something else than what happened" % (c, base, t, part[len("accessors:"):], want))
+    return None
+
+
+def mon_listeners(case, lines, meta):
+    """(not a clause of C06: a pinned detail) every registered on_success / on_error / on_timeout listener fires exactly once per result of
+    its kind"""
+    v = View(case, lines, meta)
+    for c, t, text in v.marked:
+        for part in text.split("!")[1:]:
+            if part.startswith("listeners:"):
+                return "PINNED: when caller %s was answered %s at t=%d the counting listeners were out of step with the results: %s" % (
+                    c, text.split("!")[0], t, part[len("listeners:"):])
+    return None
+
+
+def mon_source(case, lines, meta):
+    """the timeout a call gets is the configured source's answer — and the same source constructed stand-alone (`FixedTimeout::new`,
+    `DynamicTimeout::new`) and copied through `Clone` / `clone_box` gives the same answer: the fixed value, or the request's own timeout
+    (the default without one)"""
+    v = View(case, lines, meta)
+    want = []
+    for o in case["ops"]:
+        w = o.split()
+        if w[:2] == ["probe", "source"]:
+            kv = kvs(o)
+            own = tmo_parse(kv["timeout"]) if "timeout" in kv else None
+            want.append((o, own if (v.dyn and own is not None) else v.T))
+    got = [p for p in v.probes if p[1][:1] == ["source"]]
+    for i, (o, t) in enumerate(want):
+        if i >= len(got):
+            return "`%s` was not answered" % o
+        ans = got[i][1][1] if len(got[i][1]) > 1 else "?"
+        if ans != tmo_text(t):
+            return ("`%s`: the %s timeout source of this configuration (%s), constructed stand-alone and copied along the path, answers %s "
+                    "for that request; the layer's own source answers %s" % (o, "per-request" if v.dyn else "fixed",
+                                                                            ("default %s" if v.dyn else "%s") % tmo_text(v.T), ans, tmo_text(t)))
+    return None
+
+
 def _rd_cfg(case):
     cfg = kvs(case["header"])
     rec = cfg.get("rec", "0")
@@ -907,10 +1033,114 @@ def transitions(case, lines, meta=None):
         prev = w
     if dropsvc_at is not None and dropsvc_at >= len(lines) and unfinished:
         tags.append("dropsvc-calls-in-flight")
+    tags += _entry_tags(case, lines, meta or [], cancel, script)
     return tags
 
 
-ALL = ["readiness-script", "readiness-recovery", "readiness-recovery-per-instance", "refused-notready", "refused-readyerr",
+def _entry_tags(case, lines, meta, cancel, script):
+    """coverage of the entry-point dimensions: construction paths, services, handles, probes"""
+    tags = []
+    hk = kvs(case["header"])
+    if hk.get("via") in ("new", "default"):
+        tags.append("via-" + hk["via"])
+    items = hk.get("chain", "").split(",")
+    if any(x[:1] == "n" for x in items):
+        tags.append("chain-name")
+    if any(x in ("ls", "le", "lt") for x in items):
+        tags.append("chain-listeners")
+    # instants from the log: when every caller was answered / refused, when its inner call ended
+    res_t, end_t, called = {}, {}, {}
+    for l in lines:
+        t, w = tparse(l)
+        if not w:
+            continue
+        if w[0] == "result" and len(w) > 2:
+            res_t.setdefault(w[1], (t, w[2]))
+        elif w[0] in ("inner_done", "inner_drop"):
+            end_t.setdefault(w[1], t)
+        elif w[0] == "inner_call":
+            called.setdefault(w[1], t)
+        elif w[0] == "probe" and w[1:2] == ["source"]:
+            tags.append("probe-source")
+    forget_lines = [m.split() for _, m in meta if m.startswith("#forget")]
+    for w in forget_lines:
+        tags.append("forget-layer" if w[2:] == ["layer"] else "forget-handle" if len(w) > 3 else "forget-service")
+    now = 0
+    seen = set()
+    gone = False
+    svcs = set()
+    made = {}            # (svc, h) -> callers that were given a call future on that handle, with the instant
+    calls_of_svc = {}    # svc -> [(caller, instant)]
+    layer_forgotten = False
+    for o in case["ops"]:
+        w = o.split()
+        if not w:
+            continue
+        if w[0] == "adv" and len(w) > 1 and w[1].isdigit():
+            now += int(w[1])
+        elif w[:2] == ["manual", "dropsvc"]:
+            gone = True
+        elif w[:2] == ["manual", "forget"] and not gone:
+            kv = kvs(o)
+            if "layer" in kv:
+                layer_forgotten = True
+            elif "svc" in kv and "h" not in kv:
+                k = kv["svc"]
+                if any(c in called and not cancel and (c not in end_t or end_t[c] > now) for c, _ in calls_of_svc.get(k, [])):
+                    # every handle of a service goes away while a detached call made through it is still running (seeded/C06-w5m2 for one service)
+                    tags.append("forget-service-detached-running")
+                svcs.discard(k)
+                for key in [x for x in made if x[0] == k]:
+                    del made[key]
+            elif "svc" in kv:
+                made.pop((kv["svc"], kv["h"]), None)
+        elif w[:2] == ["probe", "source"]:
+            if "b" in kvs(o).get("path", ""):
+                tags.append("probe-source-boxed")
+        elif w[0] == "arrive" and len(w) > 1 and w[1] not in seen:
+            c = w[1]
+            seen.add(c)
+            if gone:
+                continue
+            kv = kvs(o)
+            k = kv.get("svc", "0")
+            if k not in svcs:
+                svcs.add(k)
+                if k != "0":
+                    tags.append("svc-several")
+                    if kv.get("lc") == "1":
+                        tags.append("svc-from-layer-clone")
+                    if layer_forgotten:
+                        tags.append("svc-after-forget-layer")
+            refused = c in res_t and c not in called and (res_t[c][1] == "notready" or res_t[c][1].startswith("err:inner9:"))
+            if c in script and not refused:
+                calls_of_svc.setdefault(k, []).append((c, now))
+            if "h" in kv:
+                key = (k, kv["h"])
+                if key not in made:
+                    tags.append("handle-kept")
+                    if calls_of_svc.get(k) and any(x != c for x, _ in calls_of_svc[k]):
+                        tags.append("handle-clone-after-call")
+                    made[key] = []
+                elif made[key]:
+                    tags.append("handle-reused")
+                    if any(x not in res_t or res_t[x][0] > now for x, _ in made[key]):
+                        tags.append("handle-reused-call-in-flight")
+                if refused:
+                    if res_t[c][1] != "notready" and any(x not in res_t or res_t[x][0] > now for x, _ in made[key]):
+                        tags.append("readyerr-on-handle-calls-in-flight")
+                elif c in script:
+                    made[key].append((c, now))
+            if c in script and script[c][0] == 0 and not cancel and c in called:
+                tags.append("timeout-zero-nocancel")
+    return tags
+
+
+ALL = ["via-new", "via-default", "chain-name", "chain-listeners", "probe-source", "probe-source-boxed", "svc-several", "svc-from-layer-clone",
+       "svc-after-forget-layer", "handle-kept", "handle-clone-after-call", "handle-reused", "handle-reused-call-in-flight",
+       "readyerr-on-handle-calls-in-flight", "forget-handle", "forget-service", "forget-layer", "forget-service-detached-running",
+       "timeout-zero-nocancel",
+       "readiness-script", "readiness-recovery", "readiness-recovery-per-instance", "refused-notready", "refused-readyerr",
        "refused-by-script", "refused-while-recovering", "never-ready", "accepted-after-refusal", "timeout-after-refusal",
        "timeout-max", "timeout-max-cancel-own", "timeout-max-cancel-default", "timeout-max-nocancel-own", "timeout-max-nocancel-default",
        "dropsvc", "dropsvc-calls-in-flight", "arrive-after-dropsvc", "timeout-after-dropsvc", "detached-done-after-timeout-no-handle-left",
@@ -946,14 +1176,20 @@ LEVEL_NOTE = ("Trusted: Lean kernel; the transcription of tokio::time::timeout (
               "of Ready/Pending/Err answers, a service-wide recovery time after every call — the harness's scripted inner service, transcribed "
               "from world.rs) and, through refusals_change_no_call, over ANY interleaving of refused arrivals; that the real poll_ready hands the "
               "wrapped service's answer on and never makes a call on a service that is not ready is observed by the correspondence check and "
-              "the monitor c06-readiness-propagated (its own restatement of the scripted service) on the sampled schedules.")
+              "the monitor c06-readiness-propagated (its own restatement of the scripted service) on the sampled schedules. "
+              "Entry points: that the real constructors, Clone / clone_box impls, .name / listener setters, the error accessors and the services and "
+              "handles built from one layer value behave as the model says (i.e. do not matter) is observed by the correspondence check and the "
+              "monitors c06-timeout-source / c06-error-accessors (c06-listeners pins the listener count: a broken correspondence, not a failing "
+              "input); TimeLimiterConfig has no public constructor, so `From<TimeLimiterConfig>` for the layer and `Clone` of the config cannot be "
+              "entered from outside the crate.")
 
 SPECS = {
     "C06": {
         "group": "timelimiter",
         "module": "TR.Props.C06",
         "gen": gen,
-        "monitors": [("c06-no-panic", mon_nopanic), ("c06-resolution-instant", mon_instant), ("c06-result-kind", mon_kind),
+        "monitors": [("c06-error-accessors", mon_accessors), ("c06-timeout-source", mon_source), ("c06-listeners", mon_listeners),
+                     ("c06-no-panic", mon_nopanic), ("c06-resolution-instant", mon_instant), ("c06-result-kind", mon_kind),
                      ("c06-readiness-propagated", mon_readiness), ("c06-inner-fate", mon_fate), ("c06-background-completion", mon_background),
                      ("c06-intime-result-lost", mon_intime_result)],
         "transitions": transitions,
@@ -971,14 +1207,19 @@ SPECS = {
                 "per-request timeouts 0..40 ms, (5-6%) huge ones up to u64::MAX ms and (5-6%) `max` = Duration::MAX (not representable as a "
                 "deadline), the layer configured either by timeout/cancel/dyn or (55%) "
                 "by an explicit builder chain of 0..5 setters (timeout_duration / timeout_fn / cancel_running_future in any order, repeated, "
-                "both orders of flag and source, empty chain = defaults), latencies at timeout-1/timeout/timeout+1/0/random/never, ok/err (few panics), creation "
+                "both orders of flag and source, empty chain = defaults), laid over each case (none of it changes what a call does): the builder obtained "
+                "through builder() / TimeLimiterConfigBuilder::new() / ::default() (30%), .name and on_success/on_error/on_timeout setters anywhere in "
+                "the chain (45% of the chains), in 45% of the cases 1..3 services built lazily from the one layer value (or a clone of it), calls made "
+                "on kept handles that are re-used while earlier calls are in flight and cloned after calls, handles / whole services / the layer "
+                "value dropped at any point, and (25%) probes of the stand-alone timeout source cloned / boxed along a random path; latencies at timeout-1/timeout/timeout+1/0/random/never, ok/err (few panics), creation "
                 "separated from the first poll, advances biased to done/deadline -1/0/+1 and to jumps over both (late polls); distinct = "
                 "distinct implementation event log; non-trivial = a timeout, a tie, a late poll, a dropped or detached inner call",
         "level_text": "Theorems TR.Props.C06.{builder_mode_last_wins, builder_source_last_wins, nocancel_chain_never_drops, timeout_source, deadline_from_first_poll, awake_characterisation, resolves_from_wake, resolves_by_deadline, "
                       "pending_before_wake, settled_none_overdue, never_resolves_early, inner_wins_whenever_observed, "
                       "result_if_earlier, intime_result_never_lost, unlimited_resolves_with_inner_result, timeout_if_later, cancel_drops_at_deadline, "
                       "nocancel_runs_to_completion, nocancel_timeout_leaves_task, readiness_propagates, refusals_change_no_call, arrival_meets_readiness, "
-                      "resolves_by_deadline_whatever_readiness, independent}: for every configuration (any fixed or "
+                      "resolves_by_deadline_whatever_readiness, independent, builder_entry_points, source_copies_agree, error_accessors, "
+                      "services_independent, zero_timeout_nocancel_detaches}: for every configuration (any fixed or "
                       "per-request timeout, both modes), every operation sequence and every inner script, a caller polled at or after "
                       "min(done, deadline) resolves, with the inner result whenever the inner call has finished (in both modes, also "
                       "when polled late) and with the timeout error when only the deadline has passed; a call that finished before its "
@@ -990,7 +1231,12 @@ SPECS = {
                       "and for the timeout source, the value set last, wherever the other setters stand; a caller that finds the wrapped service "
                       "Pending or failed is told so and no call is made (no record, no inner call), refused arrivals change no caller's record, and for "
                       "every readiness behaviour of the wrapped service a call's deadline counts from its own first poll and a poll at or after it "
-                      "resolves the call (readiness is settled before call()). The model is tied to the real TimeLimiterLayer by "
+                      "resolves the call (readiness is settled before call()); the three ways to a builder and any .name / listener setters give the "
+                      "configuration of the bare chain; the configured timeout source constructed stand-alone and copied through Clone / clone_box "
+                      "answers what every call captures; is_timeout() / into_inner() / ResilienceError::from say what the delivered variant says "
+                      "(is_timeout only at or after the deadline); for any division of the callers into services / handles each group's records are "
+                      "those of the run of that group alone; a zero timeout without cancellation reports the timeout and then starts the detached "
+                      "inner call, which is never dropped. The model is tied to the real TimeLimiterLayer by "
                       "line-for-line agreement of event logs on generated schedules.",
         "level_note": LEVEL_NOTE,
         "trusted": ["tokio time::timeout / spawn / oneshot / select! / timer-wheel order as transcribed in TR.Model.TimeLimiter (sampled by the correspondence check)",
